@@ -37,14 +37,20 @@ var c04Uppers = []c04Upper{
 	{"list-$delete", func(n, m any, s string) map[string]any {
 		return map[string]any{"l": []any{map[string]any{"$delete": map[string]any{"k": n}}}}
 	}},
-	{"doc-$match", func(n, m any, s string) map[string]any { return map[string]any{"$match": map[string]any{"a": n}, "y": 2} }},
-	{"doc-$match-miss", func(n, m any, s string) map[string]any { return map[string]any{"$match": map[string]any{"a": m}, "y": 2} }},
+	{"doc-$match", func(n, m any, s string) map[string]any {
+		return map[string]any{"$match": map[string]any{"a": n}, "y": 2}
+	}},
+	{"doc-$match-miss", func(n, m any, s string) map[string]any {
+		return map[string]any{"$match": map[string]any{"a": m}, "y": 2}
+	}},
 	{"$repeat", func(n, m any, s string) map[string]any { return map[string]any{"$repeat": 2, "i": "$repeat"} }},
 	{"list-$match-$value", func(n, m any, s string) map[string]any {
 		return map[string]any{"l": []any{map[string]any{"$match": map[string]any{"k": m}, "$value": map[string]any{"k": n, "v": m}}}}
 	}},
 	{"same-string(useless)", func(n, m any, s string) map[string]any { return map[string]any{"s": s} }},
-	{"$match-string", func(n, m any, s string) map[string]any { return map[string]any{"$match": map[string]any{"s": s}, "t": s} }},
+	{"$match-string", func(n, m any, s string) map[string]any {
+		return map[string]any{"$match": map[string]any{"s": s}, "t": s}
+	}},
 	{"nested-repeat-count", func(n, m any, s string) map[string]any {
 		return map[string]any{"q": []any{map[string]any{"$repeat": 3, "v": n}}}
 	}},
@@ -58,7 +64,9 @@ var c04Second = []c04Upper{
 	{"then-list-$match", func(n, m any, s string) map[string]any {
 		return map[string]any{"l": []any{map[string]any{"$match": map[string]any{"k": n}, "w": 2}}}
 	}},
-	{"then-doc-$match", func(n, m any, s string) map[string]any { return map[string]any{"$match": map[string]any{"l": []any{map[string]any{"k": m}}}, "q": 1} }},
+	{"then-doc-$match", func(n, m any, s string) map[string]any {
+		return map[string]any{"$match": map[string]any{"l": []any{map[string]any{"k": m}}}, "q": 1}
+	}},
 }
 
 type c04Set struct {
@@ -251,7 +259,9 @@ func buildC04(tier string) *core.Plan {
 		)
 	}
 	templates := core.Space{Name: "anchors-mergekeys-dottedkeys-vs-expanded", N: int64(len(tmpls)), Chunk: 4,
-		Desc: func(i int64) any { return map[string]any{"name": tmpls[i].name, "text": tmpls[i].text, "expanded": tmpls[i].expanded} },
+		Desc: func(i int64) any {
+			return map[string]any{"name": tmpls[i].name, "text": tmpls[i].text, "expanded": tmpls[i].expanded}
+		},
 		Run: func(c *core.Ctx, i int64) {
 			t := tmpls[i]
 			dir := scratchDir()
@@ -284,7 +294,9 @@ func buildC04(tier string) *core.Plan {
 
 	// the emitters are in the trusted base: cross-check them against the independent Python parsers
 	selfCheck := core.Space{Name: "emitter-cross-check-python", N: 1,
-		Desc: func(i int64) any { return "every distinct layer document in every spelling parsed by Python json / PyYAML(1.2 core schema) / tomllib" },
+		Desc: func(i int64) any {
+			return "every distinct layer document in every spelling parsed by Python json / PyYAML(1.2 core schema) / tomllib"
+		},
 		Run: func(c *core.Ctx, i int64) {
 			dir := scratchDir()
 			defer os.RemoveAll(dir)
